@@ -44,9 +44,20 @@ pub fn text_exact(r: &mut Rng, n: usize) -> Vec<u8> {
 }
 
 /// Length drawn for a free text/binary field.
+/// 2^k - 1, 2^k, 2^k + 1: the sizes at which internal staging buffers, chunked reads and narrow
+/// counters of an implementation change behaviour (k up to 16 natively, up to 9 under Miri).
+pub fn pow2_len(r: &mut Rng) -> usize {
+    let k = r.range(3, if cfg!(miri) { 9 } else { 16 });
+    ((1usize << k) + r.range(0, 2) - 1).min(65_535)
+}
+
 pub fn field_len(r: &mut Rng, big: bool) -> usize {
     if big {
-        *r.pick(&BOUNDARY_LENS)
+        match r.below(4) {
+            0 => pow2_len(r),
+            1 => r.range(15, if cfg!(miri) { 300 } else { 1100 }),
+            _ => *r.pick(&BOUNDARY_LENS),
+        }
     } else {
         match r.below(8) {
             0 => 0,
@@ -266,6 +277,19 @@ pub fn gen_will(r: &mut Rng, fam: Fam, big: bool) -> RWill {
 }
 
 /// G1: a random valid packet of type `typ` (1..=15) for family `fam`.
+/// Element count of a topic / code list: mostly uniform in lo..=hi, sometimes next to a power of two
+/// (u8 counters, 64-element staging buffers) or well beyond them.
+fn list_count(r: &mut Rng, lo: usize, hi: usize) -> usize {
+    if cfg!(miri) {
+        return r.range(lo, hi.min(12));
+    }
+    match r.below(12) {
+        0 | 1 => *r.pick(&[63usize, 64, 65, 127, 128, 129, 255, 256, 257]),
+        2 => r.range(258, 600),
+        _ => r.range(lo, hi),
+    }
+}
+
 pub fn gen_rp(r: &mut Rng, fam: Fam, typ: u8, big: bool) -> RP {
     let v5 = fam == Fam::V5;
     let pr = |r: &mut Rng, ctx: u8| if v5 { props(r, ctx, false) } else { Vec::new() };
@@ -300,7 +324,15 @@ pub fn gen_rp(r: &mut Rng, fam: Fam, typ: u8, big: bool) -> RP {
             let qos = r.below(3) as u8;
             let props = pr(r, 3);
             let payload = if big && r.bool() {
-                let n = if cfg!(miri) { *r.pick(&[127usize, 128, 200]) } else { *r.pick(&[127usize, 128, 16_383, 16_384, 70_000]) };
+                let n = if cfg!(miri) {
+                    *r.pick(&[127usize, 128, 200])
+                } else {
+                    match r.below(3) {
+                        0 => *r.pick(&[127usize, 128, 16_383, 16_384, 70_000]),
+                        1 => pow2_len(r) * *r.pick(&[1usize, 1, 2]),
+                        _ => r.range(15, 20_000),
+                    }
+                };
                 r.bytes(n)
             } else {
                 binary(r, false)
@@ -325,7 +357,7 @@ pub fn gen_rp(r: &mut Rng, fam: Fam, typ: u8, big: bool) -> RP {
             RP::Ack { typ, pid: pid(r), code, props }
         }
         8 => {
-            let n = if big { r.range(1, 40) } else { r.range(1, 4) };
+            let n = if big { list_count(r, 1, 40) } else { r.range(1, 4) };
             let topics = (0..n)
                 .map(|i| {
                     let f = topic_filter(r, big && i == 0);
@@ -340,18 +372,18 @@ pub fn gen_rp(r: &mut Rng, fam: Fam, typ: u8, big: bool) -> RP {
             RP::Subscribe { pid: pid(r), props: pr(r, 8), topics }
         }
         9 => {
-            let n = if big { r.range(0, 200) } else { r.range(0, 5) };
+            let n = if big { list_count(r, 0, 200) } else { r.range(0, 5) };
             let codes = (0..n).map(|_| if v5 { *r.pick(SUBACK_V5) } else { *r.pick(SUBACK_V3) }).collect();
             RP::Suback { pid: pid(r), props: pr(r, 9), codes }
         }
         10 => {
-            let n = if big { r.range(1, 40) } else { r.range(1, 4) };
+            let n = if big { list_count(r, 1, 40) } else { r.range(1, 4) };
             let topics = (0..n).map(|i| topic_filter(r, big && i == 0)).collect();
             RP::Unsubscribe { pid: pid(r), props: pr(r, 10), topics }
         }
         11 => {
             if v5 {
-                let n = if big { r.range(0, 200) } else { r.range(0, 5) };
+                let n = if big { list_count(r, 0, 200) } else { r.range(0, 5) };
                 RP::Unsuback { pid: pid(r), props: pr(r, 11), codes: (0..n).map(|_| *r.pick(UNSUBACK_V5)).collect() }
             } else {
                 RP::Unsuback { pid: pid(r), props: Vec::new(), codes: Vec::new() }
